@@ -1,7 +1,7 @@
 """C13 - packet sequencer yields start + (n mod 10) under any update history.
 
-Model: spec/Sequencer.tla.  TLC: MC_Sequencer - all histories n1*next,set,n2*next,set,... with runs up to 12
-(past a wrap-around) and 2 (3) updates among 5 starts of all four SequenceStart classes, two peers in lockstep;
+Model: spec/Sequencer.tla.  TLC: MC_Sequencer - all histories n1*next,set,n2*next,set,... with runs up to 12 (24 thorough)
+(past a wrap-around) and 2 updates among 8 starts (incl. a user-defined start whose value is not available yet) of all four SequenceStart classes, two peers in lockstep;
 action properties Lockstep/UpdateKeepsCounter.  Binding: R - every maximal TLC history replayed on the real
 PacketSequencer, every return value compared; V - random long histories recorded from the real class and
 validated by Trace_Sequencer.
